@@ -1,6 +1,7 @@
 package gch
 
 import (
+	"errors"
 	"fmt"
 	"os"
 	"strings"
@@ -389,7 +390,7 @@ func checkC11(reg *Registry, c wireCase) pbt.Result {
 			return pbt.Result{Classes: []string{"generated-reader-panicked"}} // C08's business
 		}
 		rv, rRest, rErr := r.DecodeTop(in, comb)
-		if rErr == refcodec.ErrBudget {
+		if errors.Is(rErr, refcodec.ErrBudget) {
 			return pbt.Result{Classes: append(cls, "reference-decoder-budget-exceeded")}
 		}
 		if gErr != nil && rErr == nil && isF5(gErr) && pbt.KnownFor("F5", c.Item) && !pbt.Replaying() {
